@@ -87,7 +87,7 @@ def _sym(eng, name, s):
     return eng.pin_str(name, s)
 
 
-UNARY = ["lower", "upper", "isspace", "isdigit", "isalpha", "isalnum", "isupper", "islower", "strip", "rstrip", "lstrip", "split"]
+UNARY = ["lower", "upper", "casefold", "isspace", "isdigit", "isalpha", "isalnum", "isupper", "islower", "strip", "rstrip", "lstrip", "split"]
 BINARY = ["startswith", "endswith", "find", "count", "split", "replace1", "__contains__", "__eq__", "__ne__", "__lt__", "__le__", "__add__", "rstrip", "partition"]
 
 
@@ -105,7 +105,7 @@ def run(seed=0):
             if got != getattr(ch, name)():
                 return False, "table %s(U+%04X): proxy %r builtin %r" % (name, cp, got, getattr(ch, name)())
             n += 1
-        for name in ("lower", "upper"):
+        for name in ("lower", "upper", "casefold"):
             eng = Pinned()
             eng.start_path()
             s = _sym(eng, "s", ch)
